@@ -13,8 +13,11 @@ import Xandikos.Py.Ini
 namespace Xandikos.Store
 open Xandikos.Py
 
-def cfgTok (text : String) : String := "cfg:" ++ text
-def cfgText (tok : String) : String := (tok.drop 4).toString
+def cfgTok (text : String) : String := String.ofList ('c' :: 'f' :: 'g' :: ':' :: text.toList)
+def cfgText (tok : String) : String := String.ofList (tok.toList.drop 4)
+
+theorem cfgText_cfgTok (t : String) : cfgText (cfgTok t) = t := by
+  simp [cfgText, cfgTok]
 
 /-- section and option holding a property -/
 def metaLoc (key : String) : String × String :=
@@ -47,6 +50,12 @@ def cfgDel (cfg : Ini.Config) (sec key : String) : Option Ini.Config :=
 inductive MetaOut | ok | failed
   deriving DecidableEq, Repr
 
+/-- a setter succeeds iff the write of the metadata file does -/
+def metaResult (r : St × Out) : St × MetaOut :=
+  match r with
+  | (s', .ok _) => (s', .ok)
+  | (s', _) => (s', .failed)
+
 /-- `store.set_displayname(v)` / `set_description` / `set_color` / `set_comment` /
     `config.set_order(v)`; `value = none` removes the option. -/
 def setMeta (s : St) (key : String) (value : Option String) : St × MetaOut :=
@@ -61,10 +70,7 @@ def setMeta (s : St) (key : String) (value : Option String) : St × MetaOut :=
       | none => cfgDel cfg₀ sec opt
     match cfg' with
     | none => (s, .failed)
-    | some c =>
-      match writeOne s configName (cfgTok (Ini.iniWriteS c)) with
-      | (s', .ok _) => (s', .ok)
-      | (s', _) => (s', .failed)
+    | some c => metaResult (writeOne s configName (cfgTok (Ini.iniWriteS c)))
 
 /-- `store.get_displayname()` …: `none` when the option is absent -/
 def getMeta (s : St) (key : String) : Option String :=
